@@ -1,3 +1,5 @@
 //! Recording / model sinks.
 pub mod canon;
 pub mod tokrec;
+pub mod model;
+pub mod drive;
